@@ -250,6 +250,8 @@ pub fn run(tier: Tier, seed0: u64) -> i32 {
     };
     vpins.par_iter().enumerate().for_each(|(i, &p)| {
         let s = (i as u32).wrapping_mul(97_003);
+        // mostly two different salts; every 5th case the client echoes the server's salt, every 7th both are degenerate
+        let (ss, cs) = if i % 5 == 4 { (ss, ss) } else if i % 7 == 6 { ([0u8; 16], [0xFF; 16]) } else if i % 11 == 10 { ([0u8; 16], [0u8; 16]) } else { (ss, cs) };
         let reference = pin_hash(p, s, &ss, &cs);
         let mut presented: Vec<[u8; 20]> = vec![[0u8; 20], [0xFF; 20]];
         // the hash the scheme WOULD give without the length gate
